@@ -173,26 +173,104 @@ func tuple(ts []types.Type) *types.Tuple {
 	return types.NewTuple(vs...)
 }
 
+// clone: every named type has a second, DIFFERENT named type whose underlying type is a separately built,
+// structurally identical term (type Reader interface{M()}; type Writer interface{M()}): identity and hashing must go
+// by the type name object, never by the underlying structure.  cloneOf maps a key to the key of its clone.
+var cloneOf = map[string]string{}
+
 func setupNamed() {
 	tint := types.Typ[types.Int]
-	mkNamed("N1", 1, tint)
-	mkNamed("N2", 1, types.NewStruct([]*types.Var{types.NewField(token.NoPos, pkgs[1], "A", tint, false)}, nil))
-	mkNamed("E0", 1, types.NewInterfaceType(nil, nil).Complete())
-	e1 := mkNamed("E1", 1, types.NewInterfaceType([]*types.Func{fn(1, "M", nil, nil, nil, false)}, nil).Complete())
-	mkNamed("E2", 1, types.NewInterfaceType([]*types.Func{fn(1, "N", nil, []types.Type{tint}, nil, false)}, []types.Type{e1}).Complete())
-	mkNamed("E3", 2, types.NewInterfaceType([]*types.Func{fn(2, "m", nil, nil, nil, false)}, nil).Complete())
+	for _, sfx := range []string{"", "b"} {
+		mkNamed("N1"+sfx, 1, tint)
+		mkNamed("N2"+sfx, 1, types.NewStruct([]*types.Var{types.NewField(token.NoPos, pkgs[1], "A", tint, false)}, nil))
+		mkNamed("E0"+sfx, 1, types.NewInterfaceType(nil, nil).Complete())
+		mkNamed("E1"+sfx, 1, types.NewInterfaceType([]*types.Func{fn(1, "M", nil, nil, nil, false)}, nil).Complete())
+		// E2 and E2b embed the SAME named interface E1 (equal method sets, equal embedded lists, different names)
+		mkNamed("E2"+sfx, 1, types.NewInterfaceType([]*types.Func{fn(1, "N", nil, []types.Type{tint}, nil, false)}, []types.Type{named["E1"]}).Complete())
+		mkNamed("E3"+sfx, 2, types.NewInterfaceType([]*types.Func{fn(2, "m", nil, nil, nil, false)}, nil).Complete())
+		if sfx != "" {
+			for _, k := range []string{"N1", "N2", "E0", "E1", "E2", "E3"} {
+				cloneOf[k] = k + sfx
+			}
+		}
+	}
+	// E2c embeds the clone E1b where E2 embeds E1: structurally identical two levels down
+	mkNamed("E2c", 1, types.NewInterfaceType([]*types.Func{fn(1, "N", nil, []types.Type{tint}, nil, false)}, []types.Type{named["E1b"]}).Complete())
+	// E4 has the flattened method set of E2 without embedding anything
+	mkNamed("E4", 1, types.NewInterfaceType([]*types.Func{fn(1, "M", nil, nil, nil, false), fn(1, "N", nil, []types.Type{tint}, nil, false)}, nil).Complete())
 	// a cycle through a named interface: type T interface { C() interface{T} }  (not a finite tree: direct oracle only)
-	t := types.NewNamed(types.NewTypeName(token.NoPos, pkgs[1], "T", nil), types.NewInterfaceType(nil, nil), nil)
-	named["T"] = t
-	namedID[t.Obj()] = len(idNamed) + 1
-	idNamed = append(idNamed, t)
-	inner := types.NewInterfaceType(nil, []types.Type{t})
-	tu := types.NewInterfaceType([]*types.Func{fn(1, "C", nil, nil, []types.Type{inner}, false)}, nil)
-	t.SetUnderlying(tu)
-	tu.Complete()
-	inner.Complete()
+	for _, key := range []string{"T", "Tb"} {
+		t := types.NewNamed(types.NewTypeName(token.NoPos, pkgs[1], key, nil), types.NewInterfaceType(nil, nil), nil)
+		named[key] = t
+		namedID[t.Obj()] = len(idNamed) + 1
+		idNamed = append(idNamed, t)
+		inner := types.NewInterfaceType(nil, []types.Type{t})
+		tu := types.NewInterfaceType([]*types.Func{fn(1, "C", nil, nil, []types.Type{inner}, false)}, nil)
+		t.SetUnderlying(tu)
+		tu.Complete()
+		inner.Complete()
+	}
+	cloneOf["T"] = "Tb"
 	shared["s1"] = fn(1, "S", nil, nil, nil, false)
 	shared["s2"] = fn(1, "S", nil, []types.Type{tint}, nil, false)
+}
+
+// withClones adds, for every spec that embeds named interfaces, the variants with the embedded names replaced by
+// their clones (all of them / only the first / only the last), and E2 -> E2c, E2 -> E4 variants
+func withClones(l []*spec) []*spec {
+	out := append([]*spec{}, l...)
+	seen := map[string]bool{}
+	for _, s := range l {
+		seen[s.String()] = true
+	}
+	for _, s := range l {
+		if s.K != "iface" || len(s.Embs) == 0 {
+			continue
+		}
+		variant := func(f func(i int, e string) string) {
+			c := *s
+			c.Embs = nil
+			for i, e := range s.Embs {
+				c.Embs = append(c.Embs, f(i, e))
+			}
+			if k := c.String(); !seen[k] {
+				seen[k] = true
+				out = append(out, &c)
+			}
+		}
+		cl := func(e string) string {
+			if c, ok := cloneOf[e]; ok {
+				return c
+			}
+			return e
+		}
+		variant(func(_ int, e string) string { return cl(e) })
+		variant(func(i int, e string) string {
+			if i == 0 {
+				return cl(e)
+			}
+			return e
+		})
+		variant(func(i int, e string) string {
+			if i == len(s.Embs)-1 {
+				return cl(e)
+			}
+			return e
+		})
+		variant(func(_ int, e string) string {
+			if e == "E2" {
+				return "E2c"
+			}
+			return e
+		})
+		variant(func(_ int, e string) string {
+			if e == "E2" {
+				return "E4"
+			}
+			return e
+		})
+	}
+	return out
 }
 
 func buildAll(l []*spec) []types.Type {
@@ -427,7 +505,8 @@ func nm(k string) *spec         { return &spec{K: "named", Name: k} }
 func atoms() []*spec {
 	return []*spec{b(types.Bool), b(types.Int), b(types.Uint8), {K: "alias", Name: "byte"}, b(types.Int32), {K: "alias", Name: "rune"},
 		b(types.String), b(types.Float64), b(types.UnsafePointer), b(types.UntypedNilR),
-		nm("N1"), nm("N2"), nm("E0"), nm("E1"), nm("E2"), nm("E3"), nm("T")}
+		nm("N1"), nm("N2"), nm("E0"), nm("E1"), nm("E2"), nm("E3"), nm("T"),
+		nm("N1b"), nm("N2b"), nm("E0b"), nm("E1b"), nm("E2b"), nm("E2c"), nm("E3b"), nm("E4"), nm("Tb")}
 }
 
 var tnil = &spec{K: "nil"}
@@ -471,7 +550,7 @@ func expand(x, y, z *spec) []*spec {
 		{K: "iface", Ms: []methSpec{{Shared: "s2"}, {Name: "P", Pkg: 1, Ps: []*spec{x}}}},
 	}
 	var ok []*spec
-	for _, s := range out {
+	for _, s := range withClones(out) {
 		if s.K == "map" && (s.A.K == "nil" || s.B.K == "nil") {
 			continue
 		}
@@ -494,6 +573,7 @@ func leaves() []*spec {
 		{K: "iface", Ms: []methSpec{{Shared: "s1"}}}, {K: "iface", Ms: []methSpec{{Name: "S", Pkg: 1}}}, {K: "iface", Ms: []methSpec{{Shared: "s2"}}},
 		{K: "iface", Ms: []methSpec{{Name: "C", Pkg: 1, Rs: []*spec{{K: "iface", Embs: []string{"T"}}}}}},
 	}
+	l = withClones(l)
 	for _, s := range l {
 		s.depth = 1
 	}
@@ -771,10 +851,11 @@ func loadCorpus() []corpusFile {
 func main() {
 	a := vh.ParseArgs()
 	rng := vh.NewRng(a.Seed)
-	rep := vh.NewReport(a, "type terms built with the fork's go/types constructors: 17 atoms (basic kinds incl. the byte/rune alias objects, named types N1,N2, named interfaces E0 (empty), E1{M()}, E2{E1;N(int)}, E3{q.m()}, and the cyclic T{C() interface{T}}), "+
+	rep := vh.NewReport(a, "type terms built with the fork's go/types constructors: 26 atoms (basic kinds incl. the byte/rune alias objects, named types N1,N2, named interfaces E0 (empty), E1{M()}, E2{E1;N(int)}, E3{q.m()}, the cyclic T{C() interface{T}}, "+
+		"and for EVERY named type a clone = a different type name with a separately built structurally identical underlying type (N1b,N2b,E0b,E1b,E2b,E3b,Tb; E2c{E1b;N(int)}; E4{M();N(int)} = E2 flattened)), every rule/literal that embeds named interfaces also in the variants with the clones embedded (all/first/last), "+
 		"25 closed interface/struct/func literals, and 61 constructor rules (pointer, slice, arrays of 5 lengths incl. -1 and 2^31-1, chan x3, map, tuples incl. nil-typed vars, signatures with/without receiver and variadic, "+
 		"structs with exported/unexported names in packages p/q/nil, tags, embedded flag, field order, interfaces with explicit methods, embedded named interfaces (also overlapping E1;E2), flattened variants, named receivers, shared *Func objects) applied exhaustively "+
-		"to every atom (depth 1 exhaustive: 1045 terms with the atoms); depth 2 = PRNG sample of whole sibling groups (all 61 rules on one depth-1 term) out of the 60k-term exhaustive depth-2 set: quick >=1500 terms, thorough >=8000 plus 1500 depth-3 terms; n-ary partners drawn by PRNG; every term is built twice (pointer-disjoint twins). "+
+		"to every atom (depth 1 exhaustive); depth 2 = PRNG sample of whole sibling groups (all 61 rules on one depth-1 term) out of the 60k-term exhaustive depth-2 set: quick >=1500 terms, thorough >=8000 plus 1500 depth-3 terms; n-ary partners drawn by PRNG; every term is built twice (pointer-disjoint twins). "+
 		"Direct oracle on ALL ordered pairs of the universe. Correspondence: blocks of 26 terms (a window of sibling terms, twins, random terms) -> 676 model pairs each, and Map histories over pools of 12 keys with forced hash collisions. "+
 		"A counted case is one ordered pair of a block (non-trivial: both terms have the same outermost constructor other than Basic/Named) or one Map history (non-trivial: at least one successful Delete and one overwriting Set)")
 	wd := vh.NewWatchdog(rep, 20*time.Second)
